@@ -767,3 +767,77 @@ CUSTOM = {"C14": c14_driver, "C24": c24_driver, "C26": c26_driver, "C27": c27_dr
 
 # reasons for properties that are not claimed (kept current; empty when everything is claimed)
 NOT_CLAIMED = {}
+
+
+def miri_stage(chk, pid, sub, seed, procs, cases):
+    """thorough stage: the same monitored workload, interpreted by Miri (UB / invalid memory use in the dependency code the engine reaches)"""
+    def stage(m):
+        import os, subprocess, json
+        H = chk.HARNESS
+        mdir = os.path.join(chk.WORK, "target-miri")
+        outdir = os.path.join(chk.WORK, "out", pid + "-miri")
+        os.makedirs(outdir, exist_ok=True)
+        os.makedirs(os.path.join(chk.REPLAYS, pid), exist_ok=True)
+        env = dict(chk.ENV, CARGO_TARGET_DIR=mdir, MIRIFLAGS="-Zmiri-disable-isolation")
+        note = {"processes": procs, "cases_per_process": cases}
+        # build (and run one case) serially first, so that the parallel runs do not fight over the build lock
+        b = subprocess.run(["cargo", "+nightly", "miri", "run", "--offline", "-p", "tfv", "--", sub, "--seed", str(seed * 7919), "--cases", "1",
+                            "--out", os.path.join(outdir, "warm.json")], cwd=H, env=env, stdout=subprocess.PIPE, stderr=subprocess.PIPE, text=True, timeout=3000)
+        if b.returncode != 0 and "Undefined Behavior" not in b.stderr:
+            chk.log(b.stderr[-2000:])
+            m["inconclusive"].append("miri build/run failed")
+            return note
+        ps = []
+        for i in range(procs):
+            out = os.path.join(outdir, f"{i}.json")
+            if os.path.exists(out):
+                os.remove(out)
+            ps.append((i, out, subprocess.Popen(["cargo", "+nightly", "miri", "run", "--offline", "-p", "tfv", "--", sub, "--seed", str(seed * 7919 + 1 + i),
+                                                 "--cases", str(cases), "--out", out, "--replay-dir", chk.REPLAYS], cwd=H, env=env,
+                                                stdout=subprocess.PIPE, stderr=subprocess.PIPE, text=True)))
+        done = 0
+        for i, out, pr in ps:
+            try:
+                so, se = pr.communicate(timeout=3000)
+            except subprocess.TimeoutExpired:
+                pr.kill()
+                m["inconclusive"].append(f"miri process {i} hit the watchdog")
+                continue
+            if "Undefined Behavior" in se:
+                path = os.path.join(chk.REPLAYS, pid, f"miri-{i}.txt")
+                open(path, "w").write(se[-20000:])
+                line = [l for l in se.splitlines() if "Undefined Behavior" in l][:1]
+                m["violations"].append({"signature": f"{pid}:miri:" + (line[0][:120] if line else "ub"), "what": line[0] if line else "miri error", "replay": path})
+            elif pr.returncode != 0 or not os.path.exists(out):
+                m["inconclusive"].append(f"miri process {i}: rc={pr.returncode} {se[-200:]}")
+            else:
+                j = json.load(open(out))
+                done += j.get("evaluations", 0)
+                m["violations"].extend(j.get("violations", []))
+        note["cases_interpreted_by_miri"] = done
+        note["undefined_behaviour_reports"] = sum(1 for v in m["violations"] if ":miri:" in v["signature"])
+        m["evaluations"] += done
+        return note
+    return stage
+
+
+def staged_driver(make_stages):
+    def drv(chk, pid, tier, seed, spec, t0):
+        binary = chk.build()
+        if binary is None:
+            chk.write_evidence(pid, tier, seed, spec["level"], {"evaluations": 0, "distinct_nontrivial": 0, "rule": spec["rule"], "samples": [],
+                                                              "inconclusive": ["harness build failed"]}, 0, 0, spec["assumptions"])
+            print(f"INCONCLUSIVE property={pid} reason=harness build failed (see stderr)")
+            return 2
+        return chk.standard_run(binary, pid, tier, seed, spec, t0, extra_stages=make_stages(chk, pid, tier, seed, spec, binary) or None)
+    return drv
+
+
+def c01_stages(chk, pid, tier, seed, spec, binary):
+    t = spec[tier]
+    return [("miri_stage", miri_stage(chk, pid, "C01", seed, t["miri_procs"], t["miri_cases"]))] if t.get("miri_procs") else []
+
+
+PROPS["C01"]["thorough"].update({"miri_procs": 16, "miri_cases": 6})
+PROPS["C01"]["technique"] = "reference-model runtime monitor (differential against a naive declarative evaluator); thorough adds the same workload interpreted by Miri"
+CUSTOM["C01"] = staged_driver(c01_stages)
